@@ -134,7 +134,7 @@ impl Check for C09 {
     }
     fn rule() -> String {
         "Same structure-aware mutation scripts as C08, weighted towards the resource-relevant mutations (maximum := minimum on some / all records, \
-         emptied prototypes / containers, huge recordCount, huge lengths and offsets in file / section / packet / blob headers, stream lengths, chains of overlapping packet headers whose declared length is smaller than their streams, thousands of added records, deep \
+         emptied prototypes / containers, huge recordCount, huge lengths and offsets in file / section / packet / blob headers, stream lengths, DOCTYPE entity definitions referenced thousands of times, chains of overlapping packet headers whose declared length is smaller than their streams, thousands of added records, deep \
          nesting). Every iterator is driven to its first Err or None (harness cap: 3e6 / prototype length items, at most 200000) and every blob is \
          extracted, in a worker process with an address space limit and a counting allocator. Deterministic oracles per single call (new, iterator \
          creation, each next(), each blob()): peak heap growth <= 64 MiB + 512 x input size x (prototype length + 1); bytes read from the device \
@@ -153,7 +153,7 @@ impl Check for C09 {
         let mut script = gen_script(s);
         if s.chance(1, 2) {
             let len = 8192u64;
-            script.muts.push(match s.weighted(&[3, 3, 2, 2, 2, 1, 2, 2, 2, 2]) {
+            script.muts.push(match s.weighted(&[3, 3, 2, 2, 2, 1, 2, 2, 2, 2, 2]) {
                 0 => Mut::XmlMinEqMax { nth: s.below(8) as u16, all: s.flag() },
                 1 => Mut::XmlAttr { name: "recordCount".into(), nth: s.below(3) as u16, value: s.pick(&["18446744073709551615", "4294967296", "1000000", "65536"]).to_string() },
                 2 => Mut::Section { nth: s.below(2) as u8, field: 1 + s.below(3) as u8, value: *s.pick(&[u64::MAX, 1 << 40, len, 0]) },
@@ -163,7 +163,8 @@ impl Check for C09 {
                 6 => Mut::XmlDeleteChildren { nth: s.below(12) as u16 },
                 7 => Mut::PacketZeroStreams { cloud: s.below(2) as u8, nth: s.below(3) as u8 },
                 8 => Mut::BlobInflate { nth: s.below(4) as u8, length: *s.pick(&[9999u64, 1 << 20, 1 << 40]) },
-                _ => Mut::PacketChain { cloud: s.below(2) as u8, nth: s.below(3) as u8, step: s.below(3) as u8 },
+                9 => Mut::PacketChain { cloud: s.below(2) as u8, nth: s.below(3) as u8, step: s.below(3) as u8 },
+                _ => Mut::XmlEntities { size: *s.pick(&[100u16, 30000, 60000]), refs: *s.pick(&[10u16, 255, 4096]), levels: *s.pick(&[0u8, 3, 9]) },
             });
         }
         Case { script }
@@ -179,7 +180,7 @@ impl Check for C09 {
         };
         crate::kit::phase("code-under-test");
         let relevant = case.script.muts.iter().any(|m| {
-            matches!(m, Mut::SectionRel { .. } | Mut::PacketChain { .. } | Mut::XmlMinEqMax { .. } | Mut::PacketZeroStreams { .. } | Mut::BlobInflate { .. } | Mut::HeaderRel { .. } | Mut::XmlDeleteChildren { .. } | Mut::XmlAddRecords { .. } | Mut::XmlDeepNest { .. } | Mut::Section { .. } | Mut::Packet { .. } | Mut::BlobHeader { .. } | Mut::Header { .. })
+            matches!(m, Mut::SectionRel { .. } | Mut::XmlEntities { .. } | Mut::PacketChain { .. } | Mut::XmlMinEqMax { .. } | Mut::PacketZeroStreams { .. } | Mut::BlobInflate { .. } | Mut::HeaderRel { .. } | Mut::XmlDeleteChildren { .. } | Mut::XmlAddRecords { .. } | Mut::XmlDeepNest { .. } | Mut::Section { .. } | Mut::Packet { .. } | Mut::BlobHeader { .. } | Mut::Header { .. })
                 || matches!(m, Mut::XmlAttr { name, .. } if name == "recordCount" || name == "length" || name == "fileOffset")
         });
         match drive(&bytes, &mut v) {
